@@ -644,6 +644,17 @@ class Sym:
                             self.sym_box[nm] = bx
                     if s not in ("From::from", "Into::into") and "impl std::convert::From<" not in t[1]:
                         return Poly.sym(nm)
+            if s in ("From::from", "Into::into") and len(t[2]) == 1:
+                # usize::from(x > 5): a comparison used as a number is a 0/1 flag
+                inner_c = strip(t[2][0])
+                c_ = as_cmp(inner_c, True) if inner_c[0] in ("bin", "un") else None
+                if c_ is not None and not self.is_float_cmp(inner_c) and not str(c_[0]).startswith("Not"):
+                    pa, pb = self.poly(c_[1]), self.poly(c_[2])
+                    if pa is not None and pb is not None:
+                        nm = "b2i(%s)" % cmp_to_rel(c_[0], pa, pb)[1]
+                        self.sym_box[nm] = (0, 1)
+                        self.b2i[nm] = (c_[0], pa, pb)
+                        return Poly.sym(nm)
             if s in ("From::from", "Into::into") or "impl std::convert::From<" in t[1]:
                 if callee in self.prog.bodies and len(t[2]) == 1 and accessor_field(self.prog, callee) is not None:
                     # newtype -> integer: same symbol as the wrapped value's name, range = field invariant
